@@ -47,3 +47,9 @@ claim("C13",
       "Keepalive is decided as wiring that must hold on every path: each blocking select the send goroutine can reach has a pong-expiry case that ends the loop with errKeepaliveTimeout or is timer-bounded (so expiry is observed idle, sending, or on a full window); each ping-tick leg polls pong expiry first, then restarts and activates the pong timer and restarts the ping timer on every path, and the main loop queues a ping packet; the pong timer is activated nowhere else and 0 means never; in the receive loop every path from a successfully parsed packet to the next iteration restarts the ping timer and pauses an active pong timer; the send-loop wrapper closes the connection. These are the necessary conditions for both halves of the property; the time bound itself is not decided.",
       "Not decided: the numeric bound (ping interval + pong timeout + resend sync wait), the race between Pause and a tick that already passed the IsActive test (needs a dynamic technique).",
       "DESIGN.md §4 C13")
+
+claim("C06",
+      "exhaustive enumeration of the send goroutine's waits with a must-wake rule; must-pass-through path rules for the NACK/ACK signalling; dominance rule for restarting the resend timer",
+      "Liveness over all schedules is not statically decidable here; what is decided is the wiring without which the property fails on some run: every unbounded wait of the send goroutine can be woken into queue.resend by the resend timer and by a NACK signal, the waits inside the resend path are timer- and quit-bounded, queue.resend retransmits content[i] only under i != top, the ticker is re-armed after a resend, a resend-requesting NACK / a valid ACK reaches its (buffered, non-blocking) signal on every path, the window-full wait is level-triggered, NACK suppression is time-bounded, and - the clause that the pinned tree violated - the resend timer is restarted outside the send goroutine only under a fact that our own queue made progress. Each is a necessary condition of 'delivered or fails visibly, never a silent stall'.",
+      "Not decided: delivery-time bounds, absence of livelock between syncer, NACK back-off and resend, behaviour for specific fault sequences (needs model checking or simulation, a different family).",
+      "DESIGN.md §4 C06")
